@@ -85,8 +85,10 @@ mod imp {
         PrintApply { a: String, f: String, arg: i64 },   // println(a(f, arg)): a takes a function value and has no globals
         PrintLit { text: String },
         Raw { text: String },                 // compile-time rejected text
-        Needs { text: String, module: Option<(usize, u8, String)> },   // an import statement; user modules: (index, form, alias)
-        PrintExpr { text: String, value: i64, global: Option<String>, is_fn: bool }, // println(<use of an imported name>), prints value
+        /// fails: the import cannot be loaded (no such module / a module that does not compile)
+        Needs { text: String, module: Option<(usize, u8, String)>, fails: bool },   // an import statement; user modules: (index, form, alias)
+        /// bump: Some(module) -- a call of the module's stateful function (prints the module's counter after incrementing it)
+        PrintExpr { text: String, value: i64, global: Option<String>, is_fn: bool, bump: Option<usize> }, // println(<use of an imported name>), prints value
     }
     #[derive(Clone, Debug, PartialEq)]
     pub enum Step {
@@ -128,10 +130,12 @@ mod imp {
     pub fn render(stmts: &[Stmt]) -> String { stmts.iter().map(render_stmt).collect::<Vec<_>>().join("\n") + "\n" }
 
     #[derive(Clone)]
-    pub struct Oracle { pub vars: HashMap<String, (Val, bool)>, pub fns: HashMap<String, FnDef>, pub imported: HashMap<String, i64> }
+    pub struct Oracle { pub vars: HashMap<String, (Val, bool)>, pub fns: HashMap<String, FnDef>, pub imported: HashMap<String, i64>,
+                        /// modules whose top level has run in this session, their counters, host-callable names of their bump functions
+                        pub loaded: HashSet<usize>, pub modn: HashMap<usize, i64>, pub bump_fns: HashMap<String, usize> }
     pub struct OStep { pub class: &'static str, pub output: String, pub value: String }
     impl Oracle {
-        pub fn new() -> Self { Oracle { vars: HashMap::new(), fns: HashMap::new(), imported: HashMap::new() } }
+        pub fn new() -> Self { Oracle { vars: HashMap::new(), fns: HashMap::new(), imported: HashMap::new(), loaded: HashSet::new(), modn: HashMap::new(), bump_fns: HashMap::new() } }
         /// Err(()) = runtime failure (division by zero)
         /// Ok(None): the call's value is null
         fn call(&mut self, f: &str, arg: i64, out: &mut String) -> Result<Option<i64>, ()> {
@@ -153,8 +157,14 @@ mod imp {
             }
         }
         pub fn input(&mut self, stmts: &[Stmt], expect: Expect) -> OStep {
-            if expect == Expect::CompileError { return OStep { class: "compile-error", output: String::new(), value: String::new() }; }
             let mut out = String::new();
+            // modules are loaded before the input is compiled: a module that has not run in this session runs now (once)
+            for s in stmts {
+                if let Stmt::Needs { module: Some((mi, _, _)), fails: false, .. } = s {
+                    if self.loaded.insert(*mi) { self.modn.insert(*mi, 0); out.push_str(&format!("{}\n", 7_000_001 + *mi as i64)); }
+                }
+            }
+            if expect == Expect::CompileError { return OStep { class: "compile-error", output: out, value: String::new() }; }
             for s in stmts {
                 match s {
                     Stmt::Let { name, mutable, val } => { self.fns.remove(name); self.vars.insert(name.clone(), (val.clone(), *mutable)); }
@@ -169,6 +179,7 @@ mod imp {
                         Err(()) => return OStep { class: "runtime-error", output: out, value: String::new() },
                     },
                     Stmt::Needs { .. } => {}
+                    Stmt::PrintExpr { bump: Some(mi), .. } => { let n = self.modn.get(mi).copied().unwrap_or(0) + 1; self.modn.insert(*mi, n); out.push_str(&n.to_string()); out.push('\n'); }
                     Stmt::PrintExpr { value, .. } => { out.push_str(&value.to_string()); out.push('\n'); }
                     Stmt::Raw { .. } => { if expect == Expect::RuntimeError { return OStep { class: "runtime-error", output: out, value: String::new() }; } }
                 }
@@ -176,6 +187,8 @@ mod imp {
             OStep { class: "ok", output: out, value: String::new() }
         }
         pub fn host(&mut self, f: &str, arg: i64) -> OStep {
+            if let Some(mi) = self.bump_fns.get(f).copied() { let n = self.modn.get(&mi).copied().unwrap_or(0) + 1; self.modn.insert(mi, n);
+                return OStep { class: "ok", output: String::new(), value: n.to_string() }; }
             if let Some(k) = self.imported.get(f) { return OStep { class: "ok", output: String::new(), value: (arg * k).to_string() }; }
             if !self.fns.contains_key(f) { return OStep { class: "runtime-error", output: String::new(), value: String::new() }; }
             let mut out = String::new();
@@ -190,8 +203,10 @@ mod imp {
     /// a way an imported name can be written in a later input, what it evaluates to, and (functions) the
     /// global name / multiplier for a host call
     #[derive(Clone, Debug)]
-    pub struct Imp { pub text: String, pub value: i64, pub host: Option<(String, i64)>, pub global: Option<String> }
-    pub struct ModDef { pub name: String, pub fns: Vec<(String, i64)>, pub consts: Vec<(String, i64)> }
+    pub struct Imp { pub text: String, pub value: i64, pub host: Option<(String, i64)>, pub global: Option<String>, pub bump: Option<usize> }
+    /// bump / counter: `pub let mut <counter> = 0`, `pub fn <bump>(x) { <counter> = <counter> + 1; return <counter> }`; the module's top level
+    /// prints load_code when it runs
+    pub struct ModDef { pub name: String, pub fns: Vec<(String, i64)>, pub consts: Vec<(String, i64)>, pub bump: String, pub counter: String, pub load_code: i64 }
     pub struct Gen { pub rng: Rng, pub n: u64, pub o: Oracle, pub boomed_host: bool,
                      pub modules: Vec<ModDef>, pub forms_left: Vec<u8>, pub pending: Vec<Imp>, pub usable: Vec<Imp>, pub rejected_probe: Vec<Imp>,
                      /// steps already decided (directed sequences), oldest last
@@ -202,7 +217,9 @@ mod imp {
             // two small user modules (written next to the session's working directory by run_case)
             for m in ["ua", "ub"] {
                 let k1 = g.rng.range_i64(2, 9); let k2 = g.rng.range_i64(2, 9); let c = g.rng.range_i64(10, 99);
-                g.modules.push(ModDef { name: m.to_string(), fns: vec![(format!("{}f", m), k1), (format!("{}h", m), k2)], consts: vec![(format!("{}k", m), c)] });
+                let idx = g.modules.len() as i64;
+                g.modules.push(ModDef { name: m.to_string(), fns: vec![(format!("{}f", m), k1), (format!("{}h", m), k2)], consts: vec![(format!("{}k", m), c)],
+                                        bump: format!("{}b", m), counter: format!("{}n", m), load_code: 7_000_001 + idx });
             }
             // import forms: 0 whole, 1 aliased, 2 selective (user modules); 3 whole, 4 aliased, 5 selective (std.math)
             let mut forms: Vec<u8> = vec![0, 1, 2, 2, 3, 4, 5];
@@ -211,33 +228,46 @@ mod imp {
             g
         }
         pub fn module_source(m: &ModDef) -> String {
-            let mut s = String::new();
+            let mut s = String::from("needs std.io\n");
             for (f, k) in &m.fns { s.push_str(&format!("pub fn {}(x) {{ return x * {} }}\n", f, k)); }
             for (c, v) in &m.consts { s.push_str(&format!("pub let {} = {}\n", c, v)); }
+            s.push_str(&format!("pub let mut {} = 0\n", m.counter));
+            s.push_str(&format!("pub fn {}(x) {{ {} = {} + 1; return {} }}\n", m.bump, m.counter, m.counter, m.counter));
+            s.push_str(&format!("io.println({})\n", m.load_code));
             s
         }
         /// an import statement as its own input; every spelling it makes available must be used by a LATER input
         /// the text of an import statement of the given form and the spellings it makes available
-        fn make_import(&mut self, form: u8) -> (String, Vec<Imp>, Option<(usize, u8, String)>) {
-            let mi = self.rng.below(self.modules.len() as u64) as usize;
-            let (mname, fns, consts) = { let m = &self.modules[mi]; (m.name.clone(), m.fns.clone(), m.consts.clone()) };
+        fn make_import(&mut self, form: u8) -> (String, Vec<Imp>, Option<(usize, u8, String)>) { self.make_import_of(form, None) }
+        fn make_import_of(&mut self, form: u8, force: Option<usize>) -> (String, Vec<Imp>, Option<(usize, u8, String)>) {
+            let mi = match force { Some(i) => i, None => self.rng.below(self.modules.len() as u64) as usize };
+            let (mname, fns, consts, bump) = { let m = &self.modules[mi]; (m.name.clone(), m.fns.clone(), m.consts.clone(), m.bump.clone()) };
             let arg = self.rng.range_i64(1, 9);
             let mut new: Vec<Imp> = Vec::new();
             let mut module = None;
-            let std = |t: &str, v: i64| Imp { text: t.to_string(), value: v, host: None, global: None };
+            let std = |t: &str, v: i64| Imp { text: t.to_string(), value: v, host: None, global: None, bump: None };
             let text = match form {
-                0 => { for (f, k) in &fns { new.push(Imp { text: format!("{}.{}({})", mname, f, arg), value: arg * k, host: Some((format!("{}::{}", mname, f), *k)), global: Some(format!("{}::{}", mname, f)) }); }
-                       for (c, v) in &consts { new.push(Imp { text: format!("{}.{}", mname, c), value: *v, host: None, global: Some(format!("{}::{}", mname, c)) }); }
+                0 => { for (f, k) in &fns { new.push(Imp { text: format!("{}.{}({})", mname, f, arg), value: arg * k, host: Some((format!("{}::{}", mname, f), *k)), global: Some(format!("{}::{}", mname, f)), bump: None }); }
+                       new.push(Imp { text: format!("{}.{}(0)", mname, bump), value: 0, host: Some((format!("{}::{}", mname, bump), 0)), global: Some(format!("{}::{}", mname, bump)), bump: Some(mi) });
+                       for (c, v) in &consts { new.push(Imp { text: format!("{}.{}", mname, c), value: *v, host: None, global: Some(format!("{}::{}", mname, c)), bump: None }); }
                        module = Some((mi, 0, String::new()));
                        format!("needs {}", mname) }
                 1 => { let al = self.fresh("q");
-                       for (f, k) in &fns { new.push(Imp { text: format!("{}.{}({})", al, f, arg), value: arg * k, host: Some((format!("{}::{}", al, f), *k)), global: Some(format!("{}::{}", al, f)) }); }
-                       for (c, v) in &consts { new.push(Imp { text: format!("{}.{}", al, c), value: *v, host: None, global: Some(format!("{}::{}", al, c)) }); }
+                       for (f, k) in &fns { new.push(Imp { text: format!("{}.{}({})", al, f, arg), value: arg * k, host: Some((format!("{}::{}", al, f), *k)), global: Some(format!("{}::{}", al, f)), bump: None }); }
+                       new.push(Imp { text: format!("{}.{}(0)", al, bump), value: 0, host: Some((format!("{}::{}", al, bump), 0)), global: Some(format!("{}::{}", al, bump)), bump: Some(mi) });
+                       for (c, v) in &consts { new.push(Imp { text: format!("{}.{}", al, c), value: *v, host: None, global: Some(format!("{}::{}", al, c)), bump: None }); }
                        module = Some((mi, 1, al.clone()));
                        format!("needs {} as {}", mname, al) }
-                2 => { let (f, k) = fns[self.rng.below(fns.len() as u64) as usize].clone(); let (c, v) = consts[0].clone();
-                       new.push(Imp { text: format!("{}({})", f, arg), value: arg * k, host: Some((f.clone(), k)), global: Some(f.clone()) });
-                       new.push(Imp { text: c.clone(), value: v, host: None, global: Some(c.clone()) });
+                2 => { let (c, v) = consts[0].clone();
+                       let f = if self.rng.chance(1, 3) {
+                           new.push(Imp { text: format!("{}(0)", bump), value: 0, host: Some((bump.clone(), 0)), global: Some(bump.clone()), bump: Some(mi) });
+                           bump.clone()
+                       } else {
+                           let (f, k) = fns[self.rng.below(fns.len() as u64) as usize].clone();
+                           new.push(Imp { text: format!("{}({})", f, arg), value: arg * k, host: Some((f.clone(), k)), global: Some(f.clone()), bump: None });
+                           f
+                       };
+                       new.push(Imp { text: c.clone(), value: v, host: None, global: Some(c.clone()), bump: None });
                        module = Some((mi, 2, f.clone()));
                        format!("needs {}, {} from {}", f, c, mname) }
                 3 => { new.push(std("math.floor(2.5)", 2)); new.push(std("math.abs(-3)", 3));
@@ -254,23 +284,31 @@ mod imp {
         fn import_step(&mut self) -> Option<Step> {
             let form = self.forms_left.pop()?;
             let (text, new, module) = self.make_import(form);
-            for i in &new { if let Some((h, k)) = &i.host { self.o.imported.insert(h.clone(), *k); } }
-            self.pending.extend(new.iter().cloned());
-            self.usable.extend(new);
+            self.register_imps(new);
             // the importing input may also define names of its own (their mutability must be recorded like any other's)
-            let mut stmts = vec![Stmt::Needs { text, module }];
+            let mut stmts = vec![Stmt::Needs { text, module, fails: false }];
             for _ in 0..self.rng.below(3) {
                 let name = self.fresh("g");
                 stmts.push(Stmt::Let { name, mutable: self.rng.chance(1, 2), val: Val::Int(self.rng.range_i64(-50, 50)) });
             }
             Some(Step::Input { stmts, expect: Expect::Ok })
         }
+        fn register_imps(&mut self, new: Vec<Imp>) {
+            for i in &new { if let Some((h, k)) = &i.host { match i.bump { Some(mi) => { self.o.bump_fns.insert(h.clone(), mi); } None => { self.o.imported.insert(h.clone(), *k); } } } }
+            self.pending.extend(new.iter().cloned());
+            self.usable.extend(new);
+        }
+        /// an input whose import cannot be loaded: no such module, or a module that does not compile
+        fn failing_import(&mut self) -> Step {
+            let text = if self.rng.chance(1, 2) { format!("needs {}", self.fresh("nosuch")) } else { "needs ubad".to_string() };
+            Step::Input { stmts: vec![Stmt::Needs { text, module: None, fails: true }], expect: Expect::CompileError }
+        }
         /// a later input (or host call) that uses imported spellings
         fn use_step(&mut self) -> Step {
             let imp = if !self.pending.is_empty() { let i = self.rng.below(self.pending.len() as u64) as usize; self.pending.remove(i) }
                       else { let i = self.rng.below(self.usable.len() as u64) as usize; self.usable[i].clone() };
             if let Some((h, _)) = &imp.host { if self.rng.chance(1, 3) { return Step::Host { f: h.clone(), arg: self.rng.range_i64(0, 9), cached: self.rng.chance(1, 3), extra: self.rng.chance(1, 8) }; } }
-            let pe = |i: &Imp| Stmt::PrintExpr { text: i.text.clone(), value: i.value, global: i.global.clone(), is_fn: i.host.is_some() };
+            let pe = |i: &Imp| Stmt::PrintExpr { text: i.text.clone(), value: i.value, global: i.global.clone(), is_fn: i.host.is_some(), bump: i.bump };
             let mut stmts = vec![pe(&imp)];
             if !self.usable.is_empty() && self.rng.chance(1, 2) { let i = self.rng.below(self.usable.len() as u64) as usize; let u = self.usable[i].clone(); stmts.push(pe(&u)); }
             let av = self.all_vars();
@@ -410,6 +448,20 @@ mod imp {
                 return Step::Input { stmts: vec![Stmt::Raw { text: format!("println({})", p.text) }], expect: Expect::CompileError };
             }
             if flush { return self.use_step(); }
+            // a failing import; sometimes directed: a module that has run, a failing import, the module imported again under
+            // a fresh alias (it must not run again) and its stateful function called through the new alias
+            if self.rng.chance(1, 14) {
+                let loaded: Vec<usize> = { let mut v: Vec<usize> = self.o.loaded.iter().copied().collect(); v.sort(); v };
+                if !loaded.is_empty() && self.rng.chance(2, 3) {
+                    let mi = loaded[self.rng.below(loaded.len() as u64) as usize];
+                    let (text, new, module) = self.make_import_of(1, Some(mi));
+                    let b = new.iter().find(|i| i.bump.is_some()).cloned();
+                    self.register_imps(new);
+                    if let Some(b) = b { self.queued.push(Step::Input { stmts: vec![Stmt::PrintExpr { text: b.text.clone(), value: 0, global: b.global.clone(), is_fn: true, bump: b.bump }], expect: Expect::Ok }); }
+                    self.queued.push(Step::Input { stmts: vec![Stmt::Needs { text, module, fails: false }], expect: Expect::Ok });
+                }
+                return self.failing_import();
+            }
             if !self.forms_left.is_empty() && self.rng.chance(1, 9) { if let Some(s) = self.import_step() { return s; } }
             if !self.usable.is_empty() && (self.rng.chance(1, 8) || (!self.pending.is_empty() && self.rng.chance(1, 3))) { return self.use_step(); }
             let r = self.rng.below(100);
@@ -489,7 +541,7 @@ mod imp {
                     let (text, new, module) = self.make_import(form);
                     // (after a syntax error nothing is loaded: the parser rejects the input first)
                     let syntax = matches!(&stmts[pos], Stmt::Raw { text } if text == "let = 3" || text == "println(1 +)");
-                    stmts.insert(0, Stmt::Needs { text, module: if syntax { None } else { module } });
+                    stmts.insert(0, Stmt::Needs { text, module: if syntax { None } else { module }, fails: false });
                     self.rejected_probe.push(new[0].clone());
                 }
                 return Step::Input { stmts, expect: Expect::CompileError };
@@ -565,7 +617,8 @@ mod imp {
         match v { Val::Int(n) => *n, Val::Str(s) => 1_000_000 + s[1..].parse::<i64>().unwrap_or(0) }
     }
     pub fn code_of_line(l: &str) -> Option<i64> {
-        if let Ok(n) = l.parse::<i64>() { return Some(n); }
+        // (the line a module's top level prints when it runs is not an operation of the old model)
+        if let Ok(n) = l.parse::<i64>() { return if (7_000_000..7_000_100).contains(&n) { None } else { Some(n) }; }
         let num = |p: &str| l.strip_prefix(p).and_then(|x| x.parse::<i64>().ok());
         if let Some(n) = num("s") { return Some(1_000_000 + n); }
         if num("T").is_some() || num("p").is_some() || num("unreached").is_some() || l == "null" { return None; }
@@ -690,6 +743,7 @@ mod imp {
         let dir = std::env::temp_dir().join(format!("hx_repl_{}_{}", std::process::id(), seed));
         let _ = std::fs::create_dir_all(&dir);
         for m in &g.modules { let _ = std::fs::write(dir.join(format!("{}.aelys", m.name)), Gen::module_source(m)); }
+        let _ = std::fs::write(dir.join("ubad.aelys"), "pub fn ( {\n");   // a module that does not compile
         let _ = std::env::set_current_dir(&dir);
         let mut k = 0usize;
         while k < nsteps || (!g.pending.is_empty() && k < nsteps + 16) {
@@ -700,7 +754,9 @@ mod imp {
             match &step {
                 Step::Input { stmts, expect } => {
                     *kinds.entry(match expect { Expect::Ok => "input-ok", Expect::CompileError => "input-compile-error", Expect::RuntimeError => "input-runtime-error" }).or_insert(0) += 1;
-                    if stmts.iter().any(|s| matches!(s, Stmt::Needs { .. })) { *kinds.entry("input-import").or_insert(0) += 1; }
+                    if stmts.iter().any(|s| matches!(s, Stmt::Needs { fails: false, .. })) { *kinds.entry("input-import").or_insert(0) += 1; }
+                    if stmts.iter().any(|s| matches!(s, Stmt::Needs { fails: true, .. })) { *kinds.entry("input-failing-import").or_insert(0) += 1; }
+                    if stmts.iter().any(|s| matches!(s, Stmt::PrintExpr { bump: Some(_), .. })) { *kinds.entry("input-calls-stateful-module-function").or_insert(0) += 1; }
                     if stmts.iter().any(|s| matches!(s, Stmt::PrintExpr { .. })) { *kinds.entry("input-uses-imported-name").or_insert(0) += 1; }
                     let src = render(stmts);
                     let before = g.o.clone();
@@ -725,11 +781,12 @@ mod imp {
                     // session model: the module units (recognised by their nested functions) with their by-name export registration
                     let mut s_imports: Vec<String> = Vec::new();
                     for st in stmts {
-                        if let Stmt::Needs { module: Some((mi, form, alias)), .. } = st {
+                        if let Stmt::Needs { fails: true, .. } = st { s_imports.push("mkMU 0%N true [] [] []".to_string()); }
+                        if let Stmt::Needs { module: Some((mi, form, alias)), fails: false, .. } = st {
                             let m = &g.modules[*mi];
                             let first = m.fns[0].0.clone();
                             let export_list = |names: &mut Names| -> String {
-                                let all: Vec<String> = m.fns.iter().map(|x| x.0.clone()).chain(m.consts.iter().map(|x| x.0.clone())).collect();
+                                let all: Vec<String> = m.fns.iter().map(|x| x.0.clone()).chain(m.consts.iter().map(|x| x.0.clone())).chain([m.bump.clone(), m.counter.clone()]).collect();
                                 let mut ex: Vec<(String, String)> = Vec::new();
                                 match form {
                                     0 => for n in &all { ex.push((format!("{}::{}", m.name, n), n.clone())); ex.push((n.clone(), n.clone())); },
@@ -740,7 +797,7 @@ mod imp {
                             };
                             if loaded_mods.contains(mi) {
                                 // loaded by an earlier input: its top level does not run again, the exports are registered
-                                s_imports.push(format!("mkMU false [] [] [{}]", export_list(&mut names)));
+                                s_imports.push(format!("mkMU {}%N false [] [] [{}]", *mi + 1, export_list(&mut names)));
                                 continue;
                             }
                             match tops.iter().position(|f| f.nested_functions.iter().any(|n| n.name.as_deref() == Some(first.as_str()))) {
@@ -756,7 +813,16 @@ mod imp {
                                         }
                                     }
                                     for (c, v) in &m.consts { body.push(format!("ISet {}%N (VInt {})", names.id(c), zc(*v))); }
-                                    s_imports.push(format!("mkMU true {} [{}] [{}]", lay, body.join("; "), export_list(&mut names)));
+                                    body.push(format!("ISet {}%N (VInt 0)", names.id(&m.counter)));
+                                    match mt.nested_functions.iter().find(|n| n.name.as_deref() == Some(m.bump.as_str())) {
+                                        Some(nf) => { let l = sx.layout(&lay_of(nf), &mut names, &mut problems);
+                                                      let cn = names.id(&m.counter);
+                                                      let fid = sx.add_fn(l, 1, vec![format!("IAdd {}%N 1", cn), format!("IPrint {}%N 0", cn)]);
+                                                      body.push(format!("IDef {}%N {}%N", names.id(&m.bump), fid)); }
+                                        None => sx.fail(format!("module function {} not found", m.bump)),
+                                    }
+                                    body.push(format!("IOut {}", m.load_code));
+                                    s_imports.push(format!("mkMU {}%N false {} [{}] [{}]", *mi + 1, lay, body.join("; "), export_list(&mut names)));
                                     loaded_mods.insert(*mi);
                                 }
                                 None => { if std::env::var("HX_DEBUG").is_ok() { eprintln!("input {:?} class {} detail {}", srcs.last(), r.class, r.detail.chars().take(200).collect::<String>()); eprintln!("new fns: {:?}", live_functions(&vm).into_iter().map(|(i, _, n)| (i, n, function_at(&vm, i).map(|f| f.nested_functions.iter().map(|x| x.name.clone()).collect::<Vec<_>>()))).collect::<Vec<_>>()); }
@@ -797,6 +863,7 @@ mod imp {
                                     Stmt::PrintVar { name } => s_body.push(format!("IPrint {}%N 0", names.id(name))),
                                     Stmt::PrintLit { text } => s_body.push(format!("IOut {}", zc(line_code(text)))),
                                     Stmt::Needs { .. } => {}
+                                    Stmt::PrintExpr { global: Some(gn), bump: Some(_), .. } => s_body.push(format!("ICall (CGlobal {}%N) 1%N None", names.id(gn))),
                                     Stmt::PrintExpr { value, global, is_fn, .. } => match global {
                                         Some(gn) if *is_fn => { s_body.push(format!("ICall (CGlobal {}%N) 1%N None", names.id(gn))); s_body.push(format!("IOut {}", zc(*value))); }
                                         Some(gn) if ltop.names.iter().any(|x| x == gn) => s_body.push(format!("IPrint {}%N 0", names.id(gn))),
@@ -816,6 +883,7 @@ mod imp {
                                     Stmt::PrintVar { name } => ops.push(format!("OPrintIdx {} 0", top_idx(name, &mut problems))),
                                     Stmt::PrintLit { .. } => {}
                                     Stmt::Needs { .. } => {}
+                                    Stmt::PrintExpr { bump: Some(mi), .. } => ops.push(format!("OPrintConst {}", zc(cur.modn.get(mi).copied().unwrap_or(0) + 1))),
                                     Stmt::PrintExpr { value, .. } => ops.push(format!("OPrintConst {}", zc(*value))),
                                     Stmt::Raw { .. } => { ops.push("OFail".into()); failed = true; }
                                     Stmt::PrintApply { a, f, arg } => {
@@ -870,6 +938,10 @@ mod imp {
                     o = if *extra { OStep { class: "runtime-error", output: String::new(), value: String::new() } } else { g.o.host(f, *arg) };
                     if *extra {
                         // rejected by the arity check before anything is prepared or pushed: no model operations
+                    } else if g.o.bump_fns.contains_key(f) {
+                        // the stateful function of a module: the old operations model has no module state, its query ends here
+                        *kinds.entry("host-call-stateful-module-function").or_insert(0) += 1;
+                        old_model_off = true;
                     } else if let Some(kmul) = g.o.imported.get(f).copied() {
                         // a function of an imported module: its layout is read from the function object the name denotes
                         *kinds.entry("host-call-imported").or_insert(0) += 1;
